@@ -35,6 +35,11 @@ def produced_keys(f, var_hint=None) -> Dict[str, str]:
         if isinstance(n, ast.Assign) and isinstance(n.targets[0], ast.Subscript) and \
                 isinstance(n.targets[0].slice, ast.Constant) and isinstance(n.targets[0].slice.value, str):
             out[n.targets[0].slice.value] = _field_of(n.value)
+        # a table of (key, ..., self.pop_<field>) rows driven by one loop
+        if isinstance(n, ast.Tuple) and n.elts and isinstance(n.elts[0], ast.Constant) and isinstance(n.elts[0].value, str):
+            for x in n.elts[1:]:
+                if isinstance(x, ast.Attribute) and norm_stmt(x.value) == 'self' and x.attr.startswith('pop_'):
+                    out[n.elts[0].value] = x.attr[len('pop_'):].lstrip('_')
     return out
 
 
@@ -62,6 +67,16 @@ def consumed_keys(f) -> Dict[str, str]:
                 if isinstance(st, ast.Assign) and isinstance(st.targets[0], ast.Attribute) and \
                         norm_stmt(st.targets[0].value) == 'self' and f"['{key}']" in norm_stmt(st.value):
                     out[key] = st.targets[0].attr.lstrip('_')
+        # a dispatch table {key: self.add_<field>} (or a lambda that calls one) driven by `if key in mod_dict`
+        if isinstance(n, ast.Dict) and n.keys and all(isinstance(k, ast.Constant) and isinstance(k.value, str) for k in n.keys):
+            rows = {}
+            for k, v in zip(n.keys, n.values):
+                adders = [x.attr for x in ast.walk(v) if isinstance(x, ast.Attribute) and norm_stmt(x.value) == 'self'
+                          and x.attr.startswith('add_')]
+                if len(adders) == 1:
+                    rows[k.value] = adders[0][len('add_'):]
+            if len(rows) == len(n.keys):
+                out.update(rows)
     return out
 
 
@@ -130,8 +145,9 @@ def coverage(ctx, rep, clause):
             ob(rep, 'FLD', m.fq, f'{meth} covers field {fld}', fld in tags, 'in the slice of the result',
                f'{meth} ignores {fld}', m.loc(), clause)
     pm = cls.methods['pop_mods']
-    popped = {n.func.attr[len('pop_'):] for n in walk_own(pm.node) if isinstance(n, ast.Call) and
-              isinstance(n.func, ast.Attribute) and n.func.attr.startswith('pop_')}
+    # the pop methods it uses: called directly, or referenced in a (key, has, pop) table that a loop drives
+    popped = {n.attr[len('pop_'):] for n in walk_own(pm.node) if isinstance(n, ast.Attribute) and
+              norm_stmt(n.value) == 'self' and n.attr.startswith('pop_')}
     st = cls.methods['strip']
     cleared = {n.targets[0].attr.lstrip('_') for n in walk_own(st.node) if isinstance(n, ast.Assign) and
                isinstance(n.targets[0], ast.Attribute) and norm_stmt(n.targets[0].value) == 'self' and
